@@ -105,7 +105,7 @@ pub fn exit_with_pending_operands(ast: &[Stmt]) -> bool {
     stmts(ast, false)
 }
 
-fn known_predicate(sh: &mut Shard, pred: &str) -> bool {
+pub fn known_predicate(sh: &mut Shard, pred: &str) -> bool {
     let hit = sh.known.iter().find(|f| f.matcher.get("predicate").and_then(|v| v.as_str()) == Some(pred)).map(|f| f.id.clone());
     match hit {
         Some(id) => {
